@@ -1,3 +1,29 @@
+/-
+  The engine-level ("pipeline-level") property theorems, lifted to the whole library `Synth.synthesize`:
+  from "for every stage input `inp : EngineIn K`" to "for every voice set, interpolation weights, setter history
+  and label text". `Synth.engineIn` does not depend on the condition, so two syntheses that differ only in the
+  setter history share the same stage inputs; well-formedness of those inputs (`EngineWF`) comes from
+  `VoicesWF voices iw` through `engineIn_total`.
+
+    0. `synthesize_eq_engine` (+ `.panic` / `.err` propagation, `synthesize_nil`)
+    1. `condOf_append`, `condOf_snoc`, `condOf_snoc_{vol,ht,speed,msd,gv}`
+    2. C16  `synthesize_volume` (every voice set, every outcome), `synthesize_volume_samples` (`VoicesWF`)
+    4. C08  `frames1`, `synthesize_speed_one`, `synthesize_speed`
+       `Synth.params` / `Synth.durations` / `Synth.stream`; `engineParams_total`, `engineParams_compare`,
+       `engineIn_fields` (stream `i` of the stage inputs is `modelStream … i`), `modelStream_windows`
+    3. C15  `durations_halfTone`, `stream_halfTone` (every voice set), `params_halfTone_frame`, `params_halfTone_shift`
+    5. C11  `StreamSame`, `stream_congr`, `durations_congr`, `stream_{msd,gv}_other`, `durations_{msd,gv}`,
+            `params_congr`, `params_{msd,gv}_other`
+    6. C02  `engineGenerator`, `Synth.generator`, `synthesize_eq_generator`, `generator_history_refines`,
+            `generator_total`
+
+  The speed test. `Synth.synthesize` takes the comparison `speed == 1.0` as a parameter `f : Condition K → Bool`
+  (so that the model needs no `DecidableEq` on the scalars), and `f` may a priori read any setting. Every lifted
+  statement that compares two histories needs `f` to answer the same on the two conditions; `SpeedOnly f` ("`f` reads
+  the speed setting only") gives that. This hypothesis is about the model's parameter, not about the voices, and it
+  cannot be dropped: `Cex.volume_needs_speedOnly` (a speed test that reads the volume makes `set_volume` change the
+  number of samples).
+-/
 import Jb.Proofs.SynthTotal
 import Jb.Proofs.EngineVolume
 import Jb.Proofs.EngineHalfTone
@@ -860,6 +886,8 @@ theorem generator_total (big : K) (voices : List ParsedVoice) (iw : IW K) (h : V
       · rw [params_eq_engine big v0' vs iw _ f labels times inp hin]; exact hp
       · rw [g3]; simp [l0, l1, l2]
 
+/-! ### the hypothesis on the speed test is needed -/
+
 namespace Cex
 
 theorem tiny_duration (big : K) (l : List Char) :
@@ -895,18 +923,22 @@ local instance cexFromFile : FromFile ℚ := ⟨fun _ => 4, fun _ => 1⟩
 /-- a speed test that (wrongly) looks at the volume -/
 def volTest : Condition ℚ → Bool := fun c => decide (c.volume = 1)
 
+theorem volTest_not_speedOnly : ¬ SpeedOnly volTest := by
+  intro h
+  have := h { Condition.default with volume := 1 } { Condition.default with volume := 2 } rfl
+  simp [volTest] at this
+
 theorem cond_facts (v : ℚ) :
     (condOf (K := ℚ) Tiny.voice ([.speed 2] ++ [.vol v])).alignment = false ∧
     (condOf (K := ℚ) Tiny.voice ([.speed 2] ++ [.vol v])).speed = 2 ∧
     (condOf (K := ℚ) Tiny.voice ([.speed 2] ++ [.vol v])).fperiod = 240 ∧
-    (condOf (K := ℚ) Tiny.voice ([.speed 2] ++ [.vol v])).volume = v * 10 + 1 := by
+    (condOf (K := ℚ) Tiny.voice ([.speed 2] ++ [.vol v])).volume = v * (1 / 9) + 1 := by
   rw [condOf_snoc_vol]
   refine ⟨rfl, ?_, rfl, ?_⟩
   · show maxS (2 : ℚ) speedMin = 2
     unfold maxS speedMin
     norm_num
-  · show v * (Consts.db : ℚ) + 1 = v * 10 + 1
-    rfl
+  · rfl
 
 theorem length_at (fx : Fix) (big : ℚ) (l : List Char) (v : ℚ) (n : Nat)
     (hn : ∀ inp : EngineIn ℚ, inp.duration = [⟨4, 4⟩] →
